@@ -51,6 +51,9 @@ FAULTS=[
  ('N7 item 14: generate_duration_stats stores (end, start) swapped', 'eqsig/single.py', "        self.sd_start, self.sd_end = im.calc_sig_dur_vals(self.values, self.dt, se=True)\n", "        self.sd_end, self.sd_start = im.calc_sig_dur_vals(self.values, self.dt, se=True)\n"),
  ('N8 item 11: vals works on the non-zero samples only and forgets to map the indices back (exact zeros inside)', "    cum_acc2 = np.cumsum(np.asarray(motion, dtype=float) ** 2)\n", "    motion = np.asarray(motion, dtype=float)\n    if len(motion) > 4 and motion[0] != 0 and motion[-1] != 0:\n        motion = motion[motion != 0]\n    cum_acc2 = np.cumsum(np.asarray(motion, dtype=float) ** 2)\n"),
  ('N9 item 12: calc_brac_dur re-labels the object it analysed', "    abs_motion = abs(asig.values)\n\n    time = np.arange(asig.npts) * asig.dt\n", "    abs_motion = abs(asig.values)\n    asig.label = 'bracketed'\n\n    time = np.arange(asig.npts) * asig.dt\n"),
+ ('X1 wave 5: brac exceedance tested through squares (|a|**2 > threshold**2 under/overflows below 1e-162 / above 1e154)', "    ind01 = np.where(abs_motion > threshold)\n    time2 = time[ind01]\n    try:\n        if se:", "    ind01 = np.where(abs_motion ** 2 > threshold ** 2)\n    time2 = time[ind01]\n    try:\n        if se:"),
+ ('X2 wave 5: vals squares after a unit conversion x1e4 (overflows only at the 1e150 end)', "    cum_acc2 = np.cumsum(np.asarray(motion, dtype=float) ** 2)\n", "    cum_acc2 = np.cumsum((np.asarray(motion, dtype=float) * 1e4) ** 2)\n"),
+ ('X3 wave 5: Arias squares after a unit conversion x1e-12 (squares flush to zero only at the 1e-150 end; x1e-8 leaves 8 digits and is observationally equivalent)', "    return np.pi / (2 * 9.81) * cumulative_trapezoid(acc ** 2, dx=dt, initial=0)\n", "    return np.pi / (2 * 9.81) * 1e24 * cumulative_trapezoid((acc * 1e-12) ** 2, dx=dt, initial=0)\n"),
 ]
 QUIET=[
  ('Q1 vals flatnonzero + (last-first)*dt', "    ind2 = np.where((cum_acc2 > start * cum_acc2[-1]) & (cum_acc2 < end * cum_acc2[-1]))\n    start_time = ind2[0][0] * dt\n    end_time = ind2[0][-1] * dt\n\n    if se:\n        return start_time, end_time\n    return end_time - start_time\n",
